@@ -594,6 +594,7 @@ def run(run):
         for i in range(3):
             box['%s%d' % (nm, i)] = (-2, 2)
     rep = enga.AReport(run, box=box, consts=dict(enga.WGS84))
+    rep.definedness = True
     run.assume('scipy CubicSpline / CubicHermiteSpline / RotationSpline are IDEAL interpolants of an arbitrary smooth motion: node values (and supplied node derivatives) reproduced, higher derivatives those of the underlying function (time-jets of order %d at each row). The size and decay of the real interpolation error ("within interpolation error that shrinks") is outside' % ORD,
                'decomposition at the scipy boundary: (L1) position nodes = inertial position, (L2) gravitation array, (L3) attitude nodes, (F) readings = definition applied to the captured quantities, (K) rotating-frame kinematics glue lemma over a free curve: together they give specific force and body rate of the motion, i.e. the C01 oracle equations; (V) returned velocity; (H1) Hermite node derivatives',
                'covered: position-only and position+velocity input forms, rate sensors; the closed-form increment integrals of _compute_increment_readings (gyro exact through dt^4, accelerometer through dt^3: the code keeps terms through second order in the rotation vector); a body at rest. the wiring of the increment-type branch of generate_imu (spline polynomial coefficients as free symbols of the local model: rotation-vector coefficients, specific force value and slope in the start-of-interval body frame, first sample duplicated). the initial-position form: ideal antiderivatives (zero at the first node, free values elsewhere, derivative = the interpolated function), trajectory rates and the contract of the fixed-point latitude loop on every exit path. NOT covered: that the spline coefficients scipy returns are those of the motion (interpolation error); Turntable',
